@@ -26,9 +26,9 @@ def fmt_boollist(r):
   return '%s %s' % (B(r[0]), L(r[1]))
 
 
-def divides_pred(n, get):
-  """property predicate on the implementation: every returned factor divides n; if a
-  non-empty factor list is returned, the product of a returned pair is n."""
+def divides_pred(n, get, proper=True):
+  """property predicate on the implementation: every returned factor divides n, and
+  (for every function but FermatFactor) at least one is a proper divisor."""
   def pred():
     try:
       fs = get()
@@ -39,6 +39,8 @@ def divides_pred(n, get):
     for f in fs:
       if f == 0 or n % int(f) != 0:
         return 'reported factor %x does not divide n=%x' % (int(f), n)
+    if proper and not any(1 < int(f) < n for f in fs):
+      return 'no proper divisor among reported factors %s of n=%x' % ([hex(int(f)) for f in fs], n)
     return None
   return pred
 
@@ -87,7 +89,7 @@ def correspondence(rep, rng, tier):
     for steps in (0, 1, 2, 5, 60, 1200):
       r = call(fmt_optpair, rsa_util.FermatFactor, gmpy2.mpz(n), steps)[3:]
       b.add('rsa.fermat %s %s' % (H(n), H(steps)), r, tag='found' if r != 'none' else 'none',
-            pred=divides_pred(n, lambda n=n, steps=steps: rsa_util.FermatFactor(gmpy2.mpz(n), steps)))
+            pred=divides_pred(n, lambda n=n, steps=steps: rsa_util.FermatFactor(gmpy2.mpz(n), steps), proper=False))
   rep.absorb(b, b.run())
 
   # --- FactorHighAndLowBitsEqual
